@@ -135,7 +135,12 @@ func (s *manager) DisconnectClients(ctx context.Context) {
 	}
 }
 
-func (s *setupWorker) setup(ctx context.Context, m transport.Metadata) error {
+func (s *setupWorker) setup(ctx context.Context, m transport.Metadata) (err error) {
+	defer func() {
+		if r := recover(); r != nil {
+			err = ErrProtocolViolation
+		}
+	}()
 	c := m.Channel
 	c.SetReadDeadline(
 		time.Now().Add(connectTimeout),
@@ -253,7 +258,14 @@ type timeoutError interface {
 	Timeout() bool
 }
 
-func (s *connectionWorker) processSession(ctx context.Context, session *sessions.Session) bool {
+func (s *connectionWorker) processSession(ctx context.Context, session *sessions.Session) (ok bool) {
+	defer func() {
+		// a malformed packet must cost its sender the connection, not everyone the broker
+		if r := recover(); r != nil {
+			L(ctx).Warn("packet processing panicked", zap.Any("panic", r))
+			ok = false
+		}
+	}()
 	c := session.ReadWriter()
 	started := time.Now()
 	pkt, err := s.decoder.Decode(c)
